@@ -398,15 +398,20 @@ impl Parser {
             rule => unreachable!("{rule:?}"),
         };
 
-        if matches!(
-            x.value
-                .for_type(&TypecheckFlags::use_class(
-                    input.user_data().get_type_of_executing_class()
-                ))
-                .unwrap()
-                .disregard_distractors(true),
-            TypeLayout::Void
-        ) {
+        let value_ty = match x.value.for_type(&TypecheckFlags::use_class(
+            input.user_data().get_type_of_executing_class(),
+        )) {
+            Ok(value_ty) => value_ty,
+            Err(e) => {
+                return Err(vec![new_err(
+                    value_span,
+                    &input.user_data().get_source_file_name(),
+                    format!("could not determine the type of this value: {e}"),
+                )])
+            }
+        };
+
+        if matches!(value_ty.disregard_distractors(true), TypeLayout::Void) {
             return Err(vec![new_err(
                 value_span,
                 &input.user_data().get_source_file_name(),
